@@ -1,10 +1,20 @@
 #!/bin/sh
 # MANIFEST.setup_cmd: build the framework offline from files on disk.
-set -e
+# Claimed properties' binaries/drivers must build; anything else is best effort (each check
+# rebuilds what it needs anyway).
 cd "$(dirname "$0")"
 export CARGO_NET_OFFLINE=true
 cp /repo/Cargo.lock harness/Cargo.lock
 python3 tools/extract_consts.py
-(cd harness && cargo build --offline --quiet --bins)
-(cd lean && lake build VibeProof $(grep -o "drv_c[0-9]*" lakefile.toml | sort -u))
-echo "setup done"
+claimed=$(python3 -c "import json;print(' '.join(c['property_id'].lower() for c in json.load(open('MANIFEST.json'))['checks']))")
+rc=0
+(cd harness && cargo build --offline --quiet --lib) || rc=1
+for c in $claimed; do
+  (cd harness && cargo build --offline --quiet --bin $c) || rc=1
+done
+for c in $claimed; do
+  C=$(echo $c | tr a-z A-Z)
+  (cd lean && lake build VibeProof.Props.$C drv_$c >/dev/null 2>&1) || { echo "lake build failed for $C"; rc=1; }
+done
+echo "setup done rc=$rc"
+exit $rc
